@@ -210,7 +210,11 @@ class Session:
             if ob.kind == 'cover':
                 continue
             if ob.kind == 'bounded':
-                failures.append(ob)
+                kf = match_known(known, self.prop, ob)
+                if kf is not None:
+                    known_hits.append((ob, kf))
+                else:
+                    failures.append(ob)
                 continue
             nob += 1
             b = by_backend.setdefault(ob.backend or 'none', [0, 0.0])
